@@ -37,6 +37,18 @@ CHECKS = {
    "pull_to_file, pull_to_beve_file, pull_to_beve_zst_file and pull_to_file_trailer_verified against a real or scripted SVS producer with: producer failure at chunk boundaries +-1 byte, connection cut/reset/error reply/missing final marker after the k-th response, rejecting verifier, trailer longer than the stream, rename failure, and a simulated kill (the puller thread frozen, no destructor runs) at a seeded scheduling point or exactly at each commit-path probe (created, before_sync, synced, before_rename, after_rename); destination absent or pre-existing. Oracle on the real files: Ok => complete content and the temp file's length at rename equals its length at the last sync_all; Err or kill => destination byte-for-byte what it was (or complete iff the rename had been reached), no .svspart left after an in-process failure.",
    "files are real (tmpfs private directory): torn writes / ENOSPC inside io::copy are not injected; durability is judged by the probe sequence (sync_all before rename with unchanged length), not by a simulated page cache.",
    "deterministic simulation: crash-point and fault enumeration over the commit path, file-state oracle"),
+ "C15": ("fault_enumeration","3/C15",
+   "Real WebSocketServer (tokio paused clock, off-reader handlers on simulated threads) with two connect hooks, a handshake-aware hook, two disconnect hooks and an attached PeerRegistry, serving 1-32 connections through serve_listener_with_shutdown, serve_listener_with_graceful_drain (seeded drain deadline), an embedder accept loop (accept_with_handshake + serve_connection_with_cancel_and_handshake) and adopt_upgraded + serve_connection. Every connection draws a phase (idle, inline handler running, off-reader handler parked at a gate, outbound backlog behind a non-reading peer, during connect callbacks) and an exit cause (clean Close, FIN, RST, WebSocket protocol violation: reserved opcode / unmasked frame / text / oversize, malformed REPE frame of 4 kinds, inline-handler panic, connect-callback panic, survive until the run-level event: embedder ShutdownToken cancel, graceful drain with uncooperative parked handlers, client close); a fraction of handshakes fail (wrong path, garbage, EOF mid-handshake). Oracle: per accepted peer each hook exactly once and in order, none for failed handshakes, registry presence observed inside the hooks (present before the remove hook, peer and alias absent after), registry empty at the end, connect-callback notifies precede every response on the tapped wire, handlers released after their connection ended see is_cancelled() == true, every peer's disconnect hooks ran within 30 simulated seconds of the run-level event.",
+   "the harness's raw peer bounds its own sends (2 s) so a server that has stopped reading cannot wedge the scenario; phases 'inline handler running' and 'during connect callbacks' are realised by the handler/hook itself triggering the cause (reset, panic), since nothing else can run while an inline handler holds the single runtime thread.",
+   "deterministic simulation: exit-cause x phase x serving-mode fault enumeration, hook-log oracle"),
+ "C16": ("exploration","3/C16",
+   "Real WebSocketServer with with_offreader_limit 1..16 and unlimited; _blocking routes (ctx and plain, optionally behind a forwarding middleware) run on simulated threads and park at a harness gate. Up to 4x cap pipelined gated requests and notifies interleaved with inline requests, then a barrier request; handlers are released in seeded orders with return / error / panic exits; after each exit one more gated request is sent and must be admitted, and an inline request sent while the cap is full again must be answered. Oracle: handlers running == the first cap gated messages, running gauge never above the cap, requests at the cap answered ResourceExhausted before any release, notifies at the cap never run, inline requests answered during saturation, exactly one response per request (panic => InternalError with the id), Saturation / HandlerPanic reports counted, connection still open at the end.",
+   "outbound capacity stays above the in-flight count, so blocking_send never parks here (the full-queue phase is exercised in C15).",
+   "deterministic simulation: seeded release orders / exits of gated handlers on simulated threads, admission model"),
+ "C17": ("exploration","3/C17",
+   "Assumed peer frame limits 1 KiB..1 MiB and none, message sizes limit-2..limit+2 plus random, on each outbound path: inline response, off-reader response, handler-pushed notify, registry broadcast (real WebSocketServer, raw tungstenite peer with unlimited inbound), proxy-forwarded response (proxy_connection_with_limits over a real AsyncClient<->AsyncServer hop), client request and client notify (real WebSocketClient against a recording raw server). Oracle: the largest binary message observed never exceeds the limit; an oversized response arrives as InternalError with the same id; an oversized notify is absent and reported as OutboundTooLarge; an oversized client send fails with MessageTooLarge and nothing reaches the wire; messages within the limit arrive byte-identical (patterned bodies); a follow-up call on the same connection succeeds.",
+   "limits above 1 MiB are not exercised (cost); the simulated pipe is kept wide (>= 8 KiB) so that simulated transfer time does not bound the run.",
+   "deterministic simulation: boundary-size sweep over 7 outbound paths on the simulated wire, size-tap oracle"),
  "C11": ("exploration","5.3/C11",
    "Seeded histories (systematic-size and long random) on the real TransferControl compared step by step with a credit model, plus the documented producer loop run against concurrent ack/advance/resume/cancel threads under seeded schedules; in-flight bound asserted after every send.",
    "simkernel Mutex/Condvar semantics; producer-side offsets < 2^56 and chunk lengths <= 2^48 (the property's bound); model written without repository code.",
@@ -68,8 +80,7 @@ PENDING = {
  "C01":"check under construction in this session (wire tap + emission routes)",
 
 
-"C14":"check under construction","C15":"check under construction",
- "C16":"check under construction","C17":"check under construction","C18":"check under construction",
+
 
 }
 
